@@ -174,7 +174,12 @@ const (
 // them exceeds two thirds of n; a proof made only of proper signatures above
 // the threshold must be accepted. Entries whose (r,s) is a genuine signature
 // of validator i but which cannot be recovered (grey) may be refused.
-func c29Model(n int, kinds []int) (verdict int, firstBad int, count int) {
+//
+// Validators without a public key for the DSA (nil key; service/state/btp.go
+// updateNetworkType produces them) are part of the validator set: n counts
+// them (the unchanged Verify compares with 2*len(pc.Validators)/3), but they
+// cannot sign, so any signature presented at their index is invalid.
+func c29Model(n int, kinds []int, nilMask int) (verdict int, firstBad int, count int) {
 	good, grey := 0, 0
 	firstBad = -1
 	for i, k := range kinds {
@@ -182,7 +187,7 @@ func c29Model(n int, kinds []int) (verdict int, firstBad int, count int) {
 		if cls == c29ClsNil {
 			continue
 		}
-		if i >= n || cls == c29ClsBad {
+		if i >= n || cls == c29ClsBad || nilMask&(1<<uint(i)) != 0 {
 			if firstBad < 0 {
 				firstBad = i
 			}
@@ -285,9 +290,12 @@ const (
 
 // ctx builds a fresh proof context for the first n validators.
 // origin 0: NewProofContext(keys); origin 1: NewProofContextFromBytes(Bytes()).
-func (e *c29Env) ctx(n, form, origin int) module.BTPProofContext {
+func (e *c29Env) ctx(n, form, origin int, nilMask ...int) module.BTPProofContext {
 	keys := make([][]byte, n)
 	for i := range keys {
+		if len(nilMask) > 0 && nilMask[0]&(1<<uint(i)) != 0 {
+			continue // validator i has no key for this DSA
+		}
 		switch {
 		case form == c29FormCompressed, form == c29FormMixed && i%2 == 0:
 			keys[i] = e.keys[i].comp
@@ -339,6 +347,8 @@ type c29VecCase struct {
 	Route  int    `json:"route"`  // 0 wire bytes -> NewProofFromBytes, 1 NewProof + Add(parts)
 	Kinds  []int  `json:"kinds"`  // one kind per vector position (length may differ from n)
 	Names  string `json:"names,omitempty"`
+	// bit i set: validator i has a nil key in the context (it is part of n but cannot sign)
+	NilMask int `json:"nil_key_mask,omitempty"`
 }
 
 type c29Stats struct {
@@ -397,10 +407,10 @@ func c29RunVec(r *ev.Run, st *c29Stats, e *c29Env, pc module.BTPProofContext, c 
 		phase = "Verify"
 		verr = pc.Verify(e.d, p)
 	})
-	verdict, firstBad, count := c29Model(c.N, c.Kinds)
+	verdict, firstBad, count := c29Model(c.N, c.Kinds, c.NilMask)
 	fail := func(sig, detail string) {
 		c.Names = c.names()
-		r.Violation(sig, fmt.Sprintf("%s uid=%s n=%d form=%d origin=%d route=%d vector=[%s] err=%v", detail, c.UID, c.N, c.Form, c.Origin, c.Route, c.Names, verr), c)
+		r.Violation(sig, fmt.Sprintf("%s uid=%s n=%d nil-key-validators=%0*b form=%d origin=%d route=%d vector=[%s] err=%v", detail, c.UID, c.N, c.N, c.NilMask, c.Form, c.Origin, c.Route, c.Names, verr), c)
 	}
 	if pan != "" {
 		fail("panic-in-"+phase, "panic: "+pan)
@@ -432,6 +442,8 @@ func c29RunVec(r *ev.Run, st *c29Stats, e *c29Env, pc module.BTPProofContext, c 
 				where := c29KindSig(c.Kinds[firstBad])
 				if firstBad >= c.N {
 					where = "index-beyond-validators"
+				} else if c.NilMask&(1<<uint(firstBad)) != 0 {
+					where += "@index-of-validator-without-key"
 				}
 				fail("Verify-accepted-proof-with-invalid-entry:"+where, fmt.Sprintf("accepted although entry %d is not a signature of validator %d over the decision;", firstBad, firstBad))
 			} else {
@@ -466,6 +478,7 @@ type c29PartCase struct {
 	Signer  int    `json:"signer"` // validator index whose material is used
 	Kind    int    `json:"kind"`   // kind (relative to Signer as "own" index); never nil / wrong-index
 	Claimed int    `json:"claimed"`
+	NilMask int    `json:"nil_key_mask,omitempty"`
 }
 
 func c29RunPart(r *ev.Run, e *c29Env, pc module.BTPProofContext, c *c29PartCase, okCnt, rejCnt *int64) {
@@ -482,12 +495,13 @@ func c29RunPart(r *ev.Run, e *c29Env, pc module.BTPProofContext, c *c29PartCase,
 		idx, verr = pc.VerifyPart(e.d, pp)
 	})
 	fail := func(sig, detail string) {
-		r.Violation(sig, fmt.Sprintf("%s uid=%s n=%d form=%d origin=%d signer=%d kind=%s claimed=%d idx=%d err=%v", detail, c.UID, c.N, c.Form, c.Origin, c.Signer, c29KindName(c.Kind), c.Claimed, idx, verr), c)
+		r.Violation(sig, fmt.Sprintf("%s uid=%s n=%d nil-key-validators=%0*b form=%d origin=%d signer=%d kind=%s claimed=%d idx=%d err=%v", detail, c.UID, c.N, c.N, c.NilMask, c.Form, c.Origin, c.Signer, c29KindName(c.Kind), c.Claimed, idx, verr), c)
 	}
 	if pan != "" {
 		fail("panic-in-VerifyPart", "panic: "+pan)
 		return
 	}
+	signerHasNoKey := c.NilMask&(1<<uint(c.Signer)) != 0
 	rel := "own-index"
 	switch {
 	case c.Claimed < 0:
@@ -496,8 +510,16 @@ func c29RunPart(r *ev.Run, e *c29Env, pc module.BTPProofContext, c *c29PartCase,
 		rel = "index-beyond-validators"
 	case c.Claimed != c.Signer:
 		rel = "other-validators-index"
+		if c.NilMask&(1<<uint(c.Claimed)) != 0 {
+			rel = "index-of-validator-without-key"
+		}
+	case signerHasNoKey:
+		rel = "own-index-but-validator-has-no-key"
 	}
 	cls := c29Class(c.Kind)
+	if signerHasNoKey {
+		cls = c29ClsBad // the context does not know this key: nothing it signs is a validator's signature
+	}
 	accepted := verr == nil
 	if accepted {
 		atomic.AddInt64(okCnt, 1)
@@ -811,7 +833,7 @@ func TestVerifC29(t *testing.T) {
 			var c c29PartCase
 			ev.ReplayCase(&c)
 			e := envOf(c.UID)
-			c29RunPart(r, e, e.ctx(c.N, c.Form, c.Origin), &c, &a, &b)
+			c29RunPart(r, e, e.ctx(c.N, c.Form, c.Origin, c.NilMask), &c, &a, &b)
 		case "pcm":
 			var c c29PCMCase
 			ev.ReplayCase(&c)
@@ -820,7 +842,7 @@ func TestVerifC29(t *testing.T) {
 			var c c29VecCase
 			ev.ReplayCase(&c)
 			e := envOf(c.UID)
-			c29RunVec(r, st, e, e.ctx(c.N, c.Form, c.Origin), &c)
+			c29RunVec(r, st, e, e.ctx(c.N, c.Form, c.Origin, c.NilMask), &c)
 		}
 		r.Finish(false)
 		return
@@ -831,14 +853,17 @@ func TestVerifC29(t *testing.T) {
 	prodSomeLevel := r.Pick(3, 1) // ... namely two (quick) / four (thorough) of them
 	prodLast := r.Pick(0, 6)      // full product, eth module, primary variant only (run last)
 	mutAllVariantsUpTo := r.Pick(5, 7)
+	nilMaxN := r.Pick(4, 5)  // validator sets with nil keys: every non-empty subset of nil positions for n <= this
+	nilFullN := r.Pick(2, 3) // ... with the full kind alphabet up to this n, {nil, valid, every wrong index, foreign} above
 	mutPositions := r.Pick(1, 2)
 	setRule := func(prodLast int) {
-		r.Rule(fmt.Sprintf("network-type modules eth+icon; n validators with fixed keys; per index a kind from {nil, valid, signature of every other validator j!=i (wrong index), foreign key, validator i over another decision, 65 zero bytes, S bit flipped, V flipped, 64-byte no-V}. (A) full product of kinds: n<=%d on all 12 variants {compressed,uncompressed,mixed keys}x{built,decoded context}x{wire bytes, NewProof+Add}, n<=%d on 2 (quick) / 4 (thorough) variants, n<=%d on the primary variant of the eth module (n=6 only when stages A-F took < 4 min, decided before it starts); (B) n=1..7: every signer subset x every choice of <=%d mutated positions x every non-valid kind; (C) every subset truncated to every shorter length and extended by 1-2 entries beyond n; (D) VerifyPart for every signer/kind x every claimed index in -2..n+1 and 2^31; (E) honest NewProofPart/Add/Bytes path for every signer subset n<=7; (F) proofContextMap.Verify over 2 network types x (all 16 signer subsets x 7 things signed [the decision, other source network, other network type id, other height, other round, other NTS hash, other validator set]) for the first x (3 quick / 5 thorough subsets x 4 / 7 things signed) for the second x 5 proof-list shapes x digest with/without a context-less third type. A case is non-trivial if the vector has at least one non-nil entry; distinct = (module,n,vector).", prodAll, prodSome, prodLast, mutPositions))
+		r.Rule(fmt.Sprintf("network-type modules eth+icon; n validators with fixed keys; per index a kind from {nil, valid, signature of every other validator j!=i (wrong index), foreign key, validator i over another decision, 65 zero bytes, S bit flipped, V flipped, 64-byte no-V}. (A) full product of kinds: n<=%d on all 12 variants {compressed,uncompressed,mixed keys}x{built,decoded context}x{wire bytes, NewProof+Add}, n<=%d on 2 (quick) / 4 (thorough) variants, n<=%d on the primary variant of the eth module (n=6 only when stages A-F took < 4 min, decided before it starts); (B) n=1..7: every signer subset x every choice of <=%d mutated positions x every non-valid kind; (C) every subset truncated to every shorter length and extended by 1-2 entries beyond n; (D) VerifyPart for every signer/kind x every claimed index in -2..n+1 and 2^31; (E) honest NewProofPart/Add/Bytes path for every signer subset n<=7; (G) validator sets in which every non-empty subset of the validators (n<=%d) has a NIL key (part of n, cannot sign), context built from keys and decoded from bytes: full product of kinds per index (all kinds for n<=%d, {nil, valid, every wrong index, foreign} above), plus VerifyPart/NewProofPart on them; (F) proofContextMap.Verify over 2 network types x (all 16 signer subsets x 7 things signed [the decision, other source network, other network type id, other height, other round, other NTS hash, other validator set]) for the first x (3 quick / 5 thorough subsets x 4 / 7 things signed) for the second x 5 proof-list shapes x digest with/without a context-less third type. A case is non-trivial if the vector has at least one non-nil entry; distinct = (module,n,nil-key mask,vector).", prodAll, prodSome, prodLast, mutPositions, nilMaxN, nilFullN))
 	}
 	setRule(prodSome)
 	r.Assume("signatures are produced with fixed private keys (RFC 6979 deterministic); forgery is represented by the listed mutation alphabet, not by searching the key space",
 		"entries whose (r,s) is a genuine signature of validator i but which lack a usable recovery id (V flipped, 64-byte form) may be refused or counted: only the threshold is enforced on them",
-		"validator sets with duplicate or nil keys are outside the stated quantifier and are not generated")
+		"validators with a nil key (no key registered for the DSA) are part of n — the unchanged Verify compares with 2*len(Validators)/3 — but cannot sign: a signature at their index is invalid",
+		"validator sets with duplicate keys are outside the stated quantifier and are not generated")
 
 	// ---- self test of the alphabet (independent of ntm)
 	for _, e := range envs {
@@ -877,6 +902,7 @@ func TestVerifC29(t *testing.T) {
 	type group struct {
 		e                   *c29Env
 		n, form, orig, rout int
+		nilm                int // validators without a key (bit mask)
 	}
 	type job struct {
 		stage string
@@ -885,6 +911,7 @@ func TestVerifC29(t *testing.T) {
 		vec   func(m int, kinds []int) []int // nil result: index m is a duplicate of another one, skip
 	}
 	primary := func(g group) bool { return g.form == c29FormCompressed && g.orig == 0 && g.rout == 0 }
+	var nilKeyCases int64
 	// all jobs of a batch are cut into chunks that are spread over the workers
 	runJobs := func(jobs []job) bool {
 		const chunk = 256
@@ -908,15 +935,25 @@ func TestVerifC29(t *testing.T) {
 			pc := pieces[pi]
 			jb := jobs[pc.j]
 			g := jb.g
-			ctx := g.e.ctx(g.n, g.form, g.orig)
+			ctx := g.e.ctx(g.n, g.form, g.orig, g.nilm)
 			buf := make([]int, 0, g.n+2)
 			for m := pc.lo; m < pc.hi; m++ {
 				kinds := jb.vec(m, buf[:0])
 				if kinds == nil {
 					continue
 				}
-				c := &c29VecCase{Stage: jb.stage, UID: g.e.uid, N: g.n, Form: g.form, Origin: g.orig, Route: g.rout, Kinds: kinds}
-				if primary(g) {
+				c := &c29VecCase{Stage: jb.stage, UID: g.e.uid, N: g.n, Form: g.form, Origin: g.orig, Route: g.rout, Kinds: kinds, NilMask: g.nilm}
+				if g.nilm != 0 {
+					atomic.AddInt64(&nilKeyCases, 1)
+					if g.orig == 0 && g.rout == 0 {
+						for _, k := range kinds {
+							if k != c29Nil {
+								r.Nontrivial(fmt.Sprintf("%s/%d/nil%b/%v", g.e.uid, g.n, g.nilm, kinds))
+								break
+							}
+						}
+					}
+				} else if primary(g) {
 					for _, k := range kinds {
 						if k != c29Nil {
 							r.Nontrivial(fmt.Sprintf("%s/%d/%v", g.e.uid, g.n, kinds))
@@ -940,17 +977,17 @@ func TestVerifC29(t *testing.T) {
 	variants := func(e *c29Env, n int, level int) []group {
 		switch level {
 		case 0:
-			return []group{{e, n, c29FormCompressed, 0, 0}}
+			return []group{{e, n, c29FormCompressed, 0, 0, 0}}
 		case 1:
-			return []group{{e, n, c29FormCompressed, 0, 0}, {e, n, c29FormUncompressed, 1, 0}, {e, n, c29FormMixed, 0, 1}, {e, n, c29FormCompressed, 1, 1}}
+			return []group{{e, n, c29FormCompressed, 0, 0, 0}, {e, n, c29FormUncompressed, 1, 0, 0}, {e, n, c29FormMixed, 0, 1, 0}, {e, n, c29FormCompressed, 1, 1, 0}}
 		case 3:
-			return []group{{e, n, c29FormCompressed, 0, 0}, {e, n, c29FormMixed, 1, 1}}
+			return []group{{e, n, c29FormCompressed, 0, 0, 0}, {e, n, c29FormMixed, 1, 1, 0}}
 		}
 		var gs []group
 		for f := 0; f < c29NumForms; f++ {
 			for o := 0; o < 2; o++ {
 				for rt := 0; rt < 2; rt++ {
-					gs = append(gs, group{e, n, f, o, rt})
+					gs = append(gs, group{e, n, f, o, rt, 0})
 				}
 			}
 		}
@@ -1080,7 +1117,7 @@ func TestVerifC29(t *testing.T) {
 				jobs = append(jobs, mut1Job(g))
 			}
 			if mutPositions >= 2 && n >= 2 {
-				jobs = append(jobs, mut2Job(group{e, n, c29FormCompressed, 0, 0}))
+				jobs = append(jobs, mut2Job(group{e, n, c29FormCompressed, 0, 0, 0}))
 			}
 		}
 	}
@@ -1092,7 +1129,51 @@ func TestVerifC29(t *testing.T) {
 			}
 		}
 	}
+	// ---- stage G: validator sets with key-less validators (nil key) at every subset of positions,
+	// built by NewProofContext(keys incl. nil) and by NewProofContextFromBytes(Bytes())
+	nilKinds := func(n int, full bool) []int {
+		ks := []int{c29Nil, c29Valid, c29Foreign}
+		if full {
+			ks = append(ks, c29OtherDec, c29Zero, c29SFlip, c29VFlip, c29NoV)
+		}
+		for t := 0; t < n-1; t++ {
+			ks = append(ks, c29Wrong0+t)
+		}
+		return ks
+	}
+	nilProductJob := func(g group, full bool) job {
+		n := g.n
+		ks := nilKinds(n, full)
+		K := len(ks)
+		return job{"nil-key-validators", g, pow(K, n), func(m int, kinds []int) []int {
+			for i := 0; i < n; i++ {
+				kinds = append(kinds, ks[m%K])
+				m /= K
+			}
+			return append([]int(nil), kinds...)
+		}}
+	}
+	for n := 1; n <= nilMaxN; n++ {
+		for mask := 1; mask < 1<<uint(n); mask++ {
+			for ei, e := range envs {
+				for o := 0; o < 2; o++ {
+					for rt := 0; rt < 2; rt++ {
+						if n == 5 && (rt == 1 || (ei == 1 && o == 1)) {
+							continue // n=5: wire route; eth built+decoded, icon built
+						}
+						if n == 4 && rt == 1 && r.Quick() {
+							continue
+						}
+						jobs = append(jobs, nilProductJob(group{e, n, c29FormCompressed, o, rt, mask}, n <= nilFullN))
+					}
+				}
+			}
+		}
+	}
 	complete := runJobs(jobs)
+	r.Set("nil_key_context_vectors", nilKeyCases)
+	r.Set("nil_key_contexts_up_to_n", nilMaxN)
+	r.Sanity(nilKeyCases > 0, "no nil-key context was exercised")
 	r.Set("product_all_variants_up_to_n", prodAll)
 	r.Set("product_some_variants_up_to_n", prodSome)
 	r.Set("stages_ABC_complete", complete)
@@ -1116,6 +1197,37 @@ func TestVerifC29(t *testing.T) {
 								c := &c29PartCase{Stage: "part", UID: e.uid, N: n, Form: f, Origin: o, Signer: signer, Kind: k, Claimed: cl}
 								c29RunPart(r, e, pc, c, &partOK, &partRej)
 							}
+						}
+					}
+				}
+			}
+		}
+	}
+
+	// ---- stage D2: VerifyPart on contexts with key-less validators, every claimed index
+	for n := 1; n <= 4 && !r.Expired(); n++ {
+		for mask := 1; mask < 1<<uint(n); mask++ {
+			for _, e := range envs {
+				for o := 0; o < 2; o++ {
+					pc := e.ctx(n, c29FormCompressed, o, mask)
+					for signer := 0; signer < n; signer++ {
+						for _, k := range []int{c29Valid, c29Foreign, c29OtherDec} {
+							for cl := -1; cl <= n; cl++ {
+								c := &c29PartCase{Stage: "part", UID: e.uid, N: n, Form: c29FormCompressed, Origin: o, Signer: signer, Kind: k, Claimed: cl, NilMask: mask}
+								c29RunPart(r, e, pc, c, &partOK, &partRej)
+							}
+						}
+						// a validator without a registered key cannot obtain a proof part, the others can
+						_, err := pc.NewProofPart(e.d, e.keys[signer].wp)
+						if (err == nil) != (mask&(1<<uint(signer)) == 0) {
+							r.Violation("NewProofPart-wrong-for-context-with-key-less-validators", fmt.Sprintf("uid=%s n=%d nil-key-validators=%0*b signer=%d err=%v", e.uid, n, n, mask, signer, err), nil)
+						}
+					}
+					// the decoded context must describe the same validator set
+					if o == 0 {
+						pc2, err := e.mod.NewProofContextFromBytes(pc.Bytes())
+						if err != nil || !bytes.Equal(pc2.Bytes(), pc.Bytes()) {
+							r.Violation("proof-context-with-nil-keys-does-not-round-trip", fmt.Sprintf("uid=%s n=%d mask=%b err=%v", e.uid, n, mask, err), nil)
 						}
 					}
 				}
@@ -1227,7 +1339,7 @@ func TestVerifC29(t *testing.T) {
 			setRule(prodLast)
 			ok := true
 			for n := prodSome + 1; n <= prodLast && ok; n++ {
-				ok = runJobs([]job{productJob(group{envs[0], n, c29FormCompressed, 0, 0})})
+				ok = runJobs([]job{productJob(group{envs[0], n, c29FormCompressed, 0, 0, 0})})
 				if ok {
 					prodLastDone = n
 				}
